@@ -1013,3 +1013,105 @@ func init() {
 			return out
 		}})
 }
+
+// ---- SAMPLEF
+//
+// The sampler kernels (`read(pol, f)`, `sample(pol, f)`) are shared by Read and ReadAndAdd: the combining function f
+// decides whether the drawn value replaces the coefficient (Read: f(a,b,q) = b) or is added to it (ReadAndAdd:
+// f(a,b,q) = a+b mod q). Every store into a coefficient of the target therefore has to go through f applied to that
+// same coefficient; a plain store (`coeffs[k][i] = 0` for the positions a sparse ternary sample leaves empty) is right
+// for Read and destroys the accumulator under ReadAndAdd.
+func scanSampleF(c *core.Ctx) []ob {
+	var out []ob
+	n := 0
+	c.FuncDecls(func(pk *packages.Package, file *ast.File, fd *ast.FuncDecl) {
+		rel := core.ShortPkg(pk.PkgPath)
+		if fd.Body == nil || fileIsTestSupport(c.Program, fd.Pos()) || !(c.IsFixture || rel == "ring") {
+			return
+		}
+		info := pk.TypesInfo
+		// a parameter f func(a, b, c uint64) uint64
+		var fobj types.Object
+		if fd.Type.Params != nil {
+			for _, fl := range fd.Type.Params.List {
+				for _, nm := range fl.Names {
+					o := info.Defs[nm]
+					if o == nil {
+						continue
+					}
+					if sg, ok := o.Type().Underlying().(*types.Signature); ok && sg.Params().Len() == 3 && sg.Results().Len() == 1 {
+						fobj = o
+					}
+				}
+			}
+		}
+		if fobj == nil {
+			return
+		}
+		fkey := core.FuncKey(pk, fd)
+		// only kernels that also take the target polynomial
+		hasPoly := false
+		if fn, ok := info.Defs[fd.Name].(*types.Func); ok {
+			sg := fn.Type().(*types.Signature)
+			for i := 0; i < sg.Params().Len(); i++ {
+				if polyish(sg.Params().At(i).Type()) {
+					hasPoly = true
+				}
+			}
+		}
+		if !hasPoly {
+			return
+		}
+		ord := 0
+		ast.Inspect(fd.Body, func(x ast.Node) bool {
+			as, ok := x.(*ast.AssignStmt)
+			if !ok || len(as.Lhs) != 1 || len(as.Rhs) != 1 {
+				return true
+			}
+			ix, ok := unparen(as.Lhs[0]).(*ast.IndexExpr)
+			if !ok {
+				return true
+			}
+			inner, ok := unparen(ix.X).(*ast.IndexExpr)
+			if !ok {
+				return true
+			}
+			// a [][]uint64 coefficient matrix (pol.Coeffs or a local bound to it)
+			t := info.TypeOf(inner.X)
+			sl, ok := t.Underlying().(*types.Slice)
+			if !ok {
+				return true
+			}
+			if _, ok := sl.Elem().Underlying().(*types.Slice); !ok {
+				return true
+			}
+			ord++
+			n++
+			key := fmt.Sprintf("SAMPLEF:%s#%s", fkey, exprString(as.Lhs[0]))
+			good := false
+			if call, ok := unparen(as.Rhs[0]).(*ast.CallExpr); ok && len(call.Args) == 3 {
+				if id, ok := unparen(call.Fun).(*ast.Ident); ok && info.Uses[id] == fobj && exprString(call.Args[0]) == exprString(as.Lhs[0]) {
+					good = true
+				}
+			}
+			if good {
+				out = append(out, okOb("SAMPLEF", key, c.Rel(as.Pos()), "stored through the combining function applied to the same coefficient", true))
+			} else {
+				out = append(out, violOb("SAMPLEF", key, c.Rel(as.Pos()), fmt.Sprintf("%s stores %s into %s without going through its combining function %s: under ReadAndAdd the coefficient is overwritten instead of being added to", fkey, exprString(as.Rhs[0]), exprString(as.Lhs[0]), fobj.Name())))
+			}
+			return true
+		})
+	})
+	c.Stats["samplef_stores"] = n
+	return out
+}
+
+func init() {
+	core.Register(&core.Rule{Name: "SAMPLEF", Props: []string{"C17", "C03"},
+		Doc: "in the sampler kernels shared by Read and ReadAndAdd (functions taking the target polynomial and a combining function f), every store into a coefficient goes through f applied to that same coefficient",
+		Run: func(c *core.Ctx) []ob {
+			out := scanSampleF(c)
+			out = append(out, core.Floor("SAMPLEF", nil, "coefficient stores in sampler kernels", c.Stats["samplef_stores"], 4)...)
+			return out
+		}})
+}
